@@ -3,8 +3,12 @@ import concurrent.futures
 import os
 import sys
 import contextlib
+import itertools
 import threading
 from typing import Iterable, Optional
+
+
+_PATHOS_POOL_IDS = itertools.count()
 
 
 def ensure_single_thread_numeric():
@@ -125,7 +129,20 @@ def lazy_parallel_map(
         # http://stackoverflow.com/a/21345423
         from pathos.multiprocessing import ProcessPool as PathosPool
         import pathos.helpers.pp_helper
-        PoolExecutor = PathosPool
+
+        @contextlib.contextmanager
+        def PoolExecutor(max_workers):
+            # pathos caches its pools by id (default: the number of nodes), so
+            # all live iterations with the same number of workers would share
+            # one pool and stopping one of them (terminate) would leave the
+            # others waiting forever for their results. Use a pool of its own
+            # for every iteration and remove it from the cache afterwards.
+            ex = PathosPool(max_workers,
+                            id=('lazy_dataset', next(_PATHOS_POOL_IDS)))
+            try:
+                yield ex
+            finally:
+                ex.clear()
 
         def submit(ex, func, *args, **kwargs):
             return ex.apipe(func, *args, **kwargs)
